@@ -4,6 +4,7 @@ import Driver.OpsClt
 import Driver.OpsStruct3
 import Driver.OpsStruct4
 import DeeprobModel.Model.CltLoop
+import DeeprobModel.Oblig.Struct5CltSample
 /-
 Driver ops of the loop skeletons extracted by tools/listprog.py, block K (`Gen.S5cltMessagePassing`, `Gen.S5cltMpeLoop`: the LOOPS of
 `BinaryCLT.message_passing` / `mpe`): the GENERATED loops are executed on one row (`CltLoop.messagePassing`, `CltLoop.mpe`: the
@@ -14,6 +15,9 @@ fourth-wave definitions (`Gen.S4clt…`) and the model, so that the harness comp
         → "<messages of the generated loop, flattened> | <fourth-wave messages> | <model messages> | <value of the generated loop> <model value>"
   {"op":"s5_clt_mpe","scope":…,"pred":…,"cpt":…,"row":[v|null…]}
         → "<row completed by the generated loops> | <fourth-wave mpe fed with the fourth-wave messages> | <model Clt.mpe>"
+  {"op":"s5_clt_sample","scope":…,"pred":…,"cpt":…,"row":[v|null…],"target":[v…]}
+        → "<probability that the GENERATED sampling loop (`Gen.S5cltSampleLoop` on weighted rows, `Struct5CltSample.sampleProbWith`, messages from
+           the generated message-passing loop) turns `row` into `target`> <model: Clt.value target / Clt.value row>"   (`undefined` when value row = 0)
 -/
 open Lean Deeprob
 
@@ -62,6 +66,27 @@ def handleStruct5K (net : Net Rat) (root : Nat) (op : String) (j : Json) : Optio
           (fun x obs _ reduce i => Gen.Py4.getI (@Gen.S4cltMessages Rat ⟨1⟩ mulAsAdd params (r : Int) bfs c.pred sumL maxL [] 1 x obs reduce) i []) x
         let d := Clt.mpe c.scope c.pred c.cpt e
         pure s!"{optStr l} | {optStr g} | {optStr (c.scope.map d)}"
+  | "s5_clt_sample" => some do
+      let c ← parseClt j
+      let row ← jOptNatList (← field j "row")
+      let tgt ← jOptNatList (← field j "target")
+      let e := Ev.ofList row
+      let eX := Ev.ofList tgt
+      let x := c.scope.map (fun v => row.getD v none)
+      let target := c.scope.map (fun v => tgt.getD v none)
+      let params : Int → Int → Int → Rat := fun i l k => Clt.cptAt c.cpt i.toNat l.toNat k.toNat
+      let sumL : List Rat → Rat := fun v => v.foldr (fun a b => a + b) 0
+      let maxL : List Rat → Rat := fun v => v.foldr max 0
+      match Clt.rootOf c.pred with
+      | none => pure "none"
+      | some r =>
+        let bfs := (bfsGen c.pred (c.pred.length + 1) [r] []).map (fun (a : Nat) => (a : Int))
+        let mp := fun (x : List (Option Nat)) (obs : List Bool) (rl : Bool) (rd : String) =>
+          CltLoop.msgsOf (@CltLoop.messagePassing Rat ⟨1⟩ mulAsAdd params (r : Int) bfs c.pred sumL maxL x obs rl rd)
+        let p := Oblig.Struct5CltSample.sampleProbWith (α := Rat) (· * ·) (· / ·) id sumL params (r : Int) bfs c.pred mp x target
+        let ve := Clt.value c.scope c.pred c.cpt e
+        if ve == 0 then pure s!"{showRat p} undefined"
+        else pure s!"{showRat p} {showRat (Clt.value c.scope c.pred c.cpt eX / ve)}"
   | _ => none
 
 end Deeprob.Driver
